@@ -235,6 +235,7 @@ pub fn run(rep: &Report) {
     let nt = named_trees(3, 3, &pool);
     run_structures(rep, "name-prefix family: S(3,3) with member names drawn from {a, ab, abc, b} in every sibling-distinct way x all strategies", &nt, &all_strats, &two, checks, false);
     run_structures(rep, "equal siblings: identical elements / members side by side x all strategies", &equal_sibling_trees(), &all_strats, &c8, checks, false);
+    run_structures(rep, "related-value pairs: 23 values in every ordered pair, equal pairs included, in 5 container shapes x {Top, All, 2 Custom}", &value_pair_trees(), &pair_strategies, &c8, checks, false);
     run_structures(rep, "count sweep: every member / element count 0..40 and around 64, 128, 256 x {NoSD, Top, All}", &count_sweep_trees(), &count_sweep_strategies, &c8, checks, false);
     run_structures(rep, "wide containers: arrays / objects of 11, 100, 300 entries x 6 strategies", &wide_trees(), &wide_strategies, &c8, checks, false);
     let nokey = |_: usize| vec![Cfg::CHEAP, Cfg { fmt: Fmt::Json, alg: Alg::HS256, decoys: true, hk: Hk::None }];
